@@ -11,21 +11,25 @@ def build(tier):
     quick = tier == "quick"
     obs = []
     enc = ["cminx.aggregator.DocumentationAggregator.clean_doc_lines"]
-    shards = [(0, 2, 3), (1, 2, 3), (2, 2, 3)] if quick else [(0, 3, 4), (1, 3, 4), (2, 3, 4), (3, 3, 3)]
+    def tup(n):
+        return "Tuple[" + ", ".join(["int"] * max(1, n)) + "]"
+    shards = [(0, 2, 3), (1, 3, 4), (2, 2, 3)] if quick else [(0, 4, 4), (1, 4, 6), (2, 3, 4), (3, 2, 3)]
     for (n, k, l) in shards:
-        obs.append(vf.CH(f"C01.a clean canonical n={n} k<={k} L<={l}", "c01_clean.py", dict(N=n, K=k, L=l, LEADERLESS=False),
+        obs.append(vf.CH(f"C01.a clean canonical n={n} k<={k} L<={l}", "c01_clean.py",
+                         dict(N=n, K=k, L=l, LEADERLESS=False, NCP=n * l, MT=tup(n), IT=tup(k)),
                          timeout=240 if quick else 2400, encodes=enc,
-                         symbolic="indent in {' ','\\t'}^<=k; n texts of <=L arbitrary code points (no LF, CR, ']]')",
+                         symbolic="indent in {' ','\\t'}^<=k; n texts of <=L arbitrary code points (no LF, CR, ']]'); all lengths symbolic",
                          bound=f"n={n}, k<={k}, L<={l}"))
-    for (n, l) in ([(1, 3), (2, 2)] if quick else [(1, 4), (2, 3), (3, 2)]):
-        obs.append(vf.CH(f"C01.b clean leaderless n={n} L<={l}", "c01_clean.py", dict(N=n, K=0, L=l, LEADERLESS=True),
+    for (n, l) in ([(1, 3), (2, 3)] if quick else [(1, 5), (2, 4), (3, 3)]):
+        obs.append(vf.CH(f"C01.b clean leaderless n={n} L<={l}", "c01_clean.py",
+                         dict(N=n, K=0, L=l, LEADERLESS=True, NCP=n * l, MT=tup(n), IT=tup(0)),
                          timeout=240 if quick else 2400, encodes=enc,
                          symbolic="n texts, first char a letter, rest arbitrary code points", bound=f"n={n}, L<={l}, unindented"))
     kinds = prog_kinds.KINDS
     pairs = [(kinds[i], kinds[(i + 1) % len(kinds)]) for i in range(len(kinds))] if quick else [(a, b) for a in kinds for b in kinds]
     for (a, b) in pairs:
-        n1, n2, l = (2, 1, 1) if quick else (2, 2, 2)
-        obs.append(vf.CH(f"C01.c pair {a}+{b} n={n1},{n2} L={l}", "c01_pair.py", dict(K1=a, K2=b, N1=n1, N2=n2, L=l, IND="  "),
+        n1, n2, l = (2, 2, 2) if quick else (3, 2, 3)
+        obs.append(vf.CH(f"C01.c pair {a}+{b} n={n1},{n2} L={l}", "c01_pair.py", dict(K1=a, K2=b, N1=n1, N2=n2, L=l, IND="  ", NCP=(n1 + n2) * l),
                          timeout=240 if quick else 1200, encodes=ENC_TEXT,
                          symbolic=f"{n1}+{n2} doc lines of {l} arbitrary code points each (no LF, CR, ']]')",
                          bound=f"two adjacent documented commands ({a}, {b}); line length exactly {l}"))
